@@ -93,4 +93,30 @@ REG = {
             fuzz("pure", "FuzzC17", 60),
         ],
     },
+    "C03": {
+        "level": "exploration",
+        "technique": "property-based testing (rapid): every exported parser on raw, valid and structure-aware mutated bodies; oracle = no panic on exact-capacity input, same outcome with different bytes behind the slice, same outcome on a reused receiver, String total, watchdog for promptness; native fuzzing in the thorough tier",
+        "level_text": "Generated-input exploration of 43 decode targets (35 message types x header version x five dialects, five Su-Biao extension parsers directly and through the README meLocation pattern, jt808 Decode, jt1078 Decode). Each body is parsed four ways (exact capacity, embedded before 0x00.. and before 0xFF.., on a receiver that already parsed 0..3 other bodies) and the outcomes must coincide; a panic anywhere is a violation; a 10 s watchdog bounds each case.",
+        "level_note": "Over-reads are made visible by exact-capacity slices (Go bounds-checks against capacity) and by differing trailing bytes. Promptness is a 10 s bound per case (nine orders of magnitude of slack). The meLocation outcome is the embedded T0x0200; extension structs of items absent from the message are not part of it.",
+        "rule": "target drawn uniformly; body is raw bytes (0..4096), a valid encoding from the C07/C08 generators, or a mutation of one (truncate, adversarial byte/word, extend, drop, duplicate, constant tail); 0..3 prior bodies for the reused receiver; non-trivial = the body was accepted or derives from a valid encoding",
+        "assumptions": ["Go slice bounds checks (capacity) make any access beyond an exact-capacity slice panic"],
+        "required_buckets": {"any": ["reused_receiver", "origin_mutated", "origin_valid", "origin_raw", "T0x0704:accepted", "T0x1210:accepted", "ext67:accepted", "T0x0200+ext:accepted", "P0x9208:dialect3", "jt1078.Decode:accepted", "jt808.Decode:accepted", "T0x0104:accepted"]},
+        "parts": [
+            rapid("pure", "TestC03", 8000, 250000),
+            fuzz("pure", "FuzzC03", 120),
+        ],
+    },
+    "C08": {
+        "level": "exploration",
+        "technique": "property-based testing (rapid) of 0x0200/0x0704/0x0801 decoding against an independent reading of the standard's offsets, bit tables and item-length table; exhaustive enumeration of all single bits and pairs (thorough: triples and complements) and of every (id, length) pair",
+        "level_text": "Generated base blocks x TLV sequences (every standard ID with admissible and inadmissible lengths, unknown IDs, duplicates, truncated tails) in three carriers are decoded by the library and by literal tables written from JT/T 808-2019 (32 alarm bits, 21 single-bit status flags, 15 extended-signal bits, 2 IO bits, 14 item layouts); accept/reject and every field must agree.",
+        "level_note": "Trusts harness/ref/location.go. The two-bit load field is not asserted; tyre pressures asserted for bytes 1..254; with duplicate items the entry must equal the first or the last occurrence. Known finding: 0x11/len 5 area ID (pinned by a golden file) is not asserted while listed.",
+        "rule": "carrier drawn from 0x0200/0x0704/0x0801; flag words from {0, one bit, two bits, all but one, uniform}; 0..12 items; non-trivial = at least one flag bit set and at least one item (or the 0x0801 carrier)",
+        "assumptions": ["bit and length tables in harness/ref/location.go transcribe JT/T 808-2019 tables 24, 25, 27, 31, 32"],
+        "required_buckets": {"any": ["carrier_0200", "carrier_0704", "carrier_0801", "item_11_ok", "item_11_badlen", "item_31_badlen", "item_05_ok", "item_25_ok", "item_2a_ok", "item_unknown", "duplicate_item", "tlv_truncated"]},
+        "parts": [
+            rapid("pure", "TestC08", 5000, 120000),
+            enum("pure", "TestC08Enum", 1, 1),
+        ],
+    },
 }
